@@ -135,6 +135,22 @@ def r1(ctx):
             vh = h_
     vals = [s_ for s_ in ex.local_stmts if s_.target[1] == vh and s_.reads]
     idxs = [s_ for s_ in ex.local_stmts if s_.target[1] != vh and str(s_.rhs).startswith("tup(") and vals and [str(g) for g in s_.guards] == [str(g) for g in vals[0].guards]]
+    pair_form = None
+    if len(vals) == 1 and not idxs:
+        # the arg-max kept in two scalar locals: `best_row = h + k; best_column = w + l;` under the same guards, stored as `vec![(best_row, best_column)]`
+        sc = [s_ for s_ in ex.local_stmts if s_.target[1] != vh and s_.target[1] in ex.acc_init and not any(a_.startswith("ACC") for a_ in s_.rhs.atoms())
+              and [str(g) for g in s_.guards] == [str(g) for g in vals[0].guards]]
+        if len(sc) == 2:
+            order = None
+            for x_ in walk(fn["body"]):
+                if x_.get("k") == "assign":
+                    tups = [y_ for y_ in walk(x_["r"]) if y_.get("k") == "tup" and len(y_["xs"]) == 2 and all(e4.local_hid(z_) is not None for z_ in y_["xs"])]
+                    if tups and {e4.local_hid(z_) for z_ in tups[0]["xs"]} == {sc[0].target[1], sc[1].target[1]}:
+                        order = [e4.local_hid(z_) for z_ in tups[0]["xs"]]
+            if order:
+                by = {s_.target[1]: s_ for s_ in sc}
+                pair_form = (by[order[0]], by[order[1]])
+                idxs = [by[order[0]]]
     if len(vals) != 1 or len(idxs) != 1:
         raise Unestablished("Maxpool::forward: running maximum not found", c.loc(fn))
     v = vals[0]
@@ -161,7 +177,10 @@ def r1(ctx):
               "value updated iff x > value, starting from f32::MIN", "update guards %s, initial %s" % ([str(g) for g in v.guards], ex.acc_init.get(v.target[1])))
     i = idxs[0]
     oki = False
-    if okr:
+    if okr and pair_form is not None:
+        oki = (str(pair_form[0].rhs) == str(Rat.atom(hvar) + Rat.atom(kvar)) and str(pair_form[1].rhs) == str(Rat.atom(lvar) + Rat.atom(wvar))
+               and all([str(g) for g in q_.guards] == [str(g) for g in v.guards] for q_ in pair_form))
+    elif okr:
         oki = str(i.rhs) == str(e1.fn_atom("tup", Rat.atom(hvar) + Rat.atom(kvar), Rat.atom(lvar) + Rat.atom(wvar))) and [str(g) for g in i.guards] == [str(g) for g in v.guards]
     ctx.check("R02.1", "maxpool:argmax-recorded", oki, "argmax:" + str(i.rhs), c.loc(fn, i.node), "index = (h+k, w+l) under the same guard")
 
